@@ -67,8 +67,11 @@ TrSiteEpochAgrees == Logged => Clause("TrSiteEpochAgrees", Rec.siteEpochMs = 100
 \* SiteFixed: within one metre of the configured Earth-fixed position
 TrSiteFixed       == Logged => Clause("TrSiteFixed", Rec.dispMm < 1000)
 TrOwnFieldsFixed  == Logged => Clause("TrOwnFieldsFixed", Rec.ownDispMm < 1000 /\ Rec.llaErrMm < 1000)
-\* (traces of an agent stepped directly have no database: db = 0)
-TrDbRowFixed      == (Logged /\ Tr[i].db = 1) => Clause("TrDbRowFixed", Rec.dbDispMm >= 0 /\ Rec.dbDispMm < 1000)
+\* db = 1: the truth row of every step must exist and lie at the site; db = 2 (agent added
+\* mid-run, whose rows the output database does not hand back - that is C09's subject): rows that
+\* exist must lie at the site; db = 0: an agent stepped directly, there is no database
+TrDbRowFixed      == (Logged /\ Tr[i].db > 0) =>
+                        Clause("TrDbRowFixed", (Tr[i].db = 2 \/ Rec.dbDispMm >= 0) /\ Rec.dbDispMm < 1000)
 \* VelIsRotation: Earth-fixed velocity below 1e-6 km/s; inertial speed = omega * axis distance
 TrVelIsRotation   == Logged => Clause("TrVelIsRotation", Rec.velErr < 1000 /\ Rec.speedErr < 5000)
 Accepted == (i > 0 /\ pc = "run" /\ k = Len(Tr[i].st)) => PrintT(<<"ACCEPTED", i>>)
